@@ -144,13 +144,13 @@ def rand_batch(rng):
             pbs.insert(rng.randint(0, len(pbs)), dict(sequence=sq, shared_constraints=[], shared_objectives=[],
                                                       constraints=[dict(kind="kmers", k=k, location=None, rc=rc)], objectives=[],
                                                       settings={}, np_seed=rng.randint(0, 10 ** 6), ops=["resolve"]))
-    share_locations = rng.random() < 0.6
+    share_locations = rng.random() < 0.75
     if share_locations:
         # the user keeps Location objects and hands the same object to specifications of different problems: a gene
         # region that some problems freeze / diversify and others recode
         m = rng.randint(2, max(2, n // 3 - 1))
         a = rng.randint(0, n - 3 * m)
-        gene = [a, a + 3 * m, rng.choice([-1, -1, 1, 0])]
+        gene = [a, a + 3 * m, rng.choice([-1, -1, -1, 1, 0])]
         for pb in pbs:
             r = rng.random()
             if r < 0.3:
